@@ -42,7 +42,7 @@ pub fn record_c20(out: &str, seed: u64, n: usize, c02_cases: &str) {
         "||example.com^", "||example.com/ads/*.js", "/banner/", "-ad-", "|https://x.com/a", "x.com/a|", "|https://x.com/a|", "||x.com^$third-party",
         "||x.com^$first-party", "||x.com^$script,image", "||x.com^$~script", "||x.com^$document,script", "||x.com^$subdocument", "||x.com^$object",
         "||x.com^$ping,other,websocket", "||x.com^$domain=a.com", "||x.com^$domain=~a.com", "||x.com^$domain=a.com|~b.com", "||x.com^$from=a.com",
-        "||x.com^$domain=bücher.example", "||x.com^$domain=xn--ü.com", "||x.com^$domain=\u{fffd}ü.com", "@@||x.com^", "@@||x.com^$document", "||x.com^$important",
+        "||x.com^$domain=bücher.example", "||x.com^$domain=xn--ü.com", "||x.com^$domain=\u{fffd}ü.com", "@@||x.com^", "@@||x.com^$document", "@@||x.com^$image,subdocument", "@@||cdn.x.com^$script,subdocument,font", "||x.com^$important",
         "||x.com^$redirect=noop.js", "||x.com^$csp=x", "||x.com^$removeparam=a", "||x.com^$badfilter", "@@||x.com^$generichide", "/re[0-9]{2}x/",
         "/re.x/$match-case", "|http://", "|https://", "|ws://", "|ws://$~websocket", "|http://$websocket", "|https://$image", "*$image", "*$third-party,script",
         "/a$b$script", "/banner$domain=ads.example|~cdn.example/track.js$script,domain=news.example", "a$domain=x.com,image", "/a.b?c=d&e+f(g)[h]{i}|j\\k^l",
